@@ -55,11 +55,9 @@ def _case(draw, tier):
 
 
 def signature(case):
-    sigs = set()
-    for s in case["prog"]["sites"]:
-        if s.get("prev") and has_positional_call(s["prev"]):
-            sigs.add("positional-call-args")
-    return sigs
+    from .c05 import signature as c05_signature
+
+    return c05_signature(case)
 
 
 def decorate(case):
